@@ -375,6 +375,15 @@ func interpCases(c *Ctx, n int, tweak func(cfg *GenCfg, i int), post func(s *Sce
 		case "keyCollision":
 			prog = g.keyCollisionProgram()
 			c.count("directed:keyCollision")
+		case "saveDiff":
+			prog = g.saveDiffProgram()
+			c.count("directed:saveDiff")
+		case "edgeCapSumDest":
+			prog = g.edgeCapSumProgram(true)
+			c.count("directed:edgeCapSumDest")
+		case "edgeCapSumSrc":
+			prog = g.edgeCapSumProgram(false)
+			c.count("directed:edgeCapSumSrc")
 		case "twoAssets":
 			prog = g.twoAssetsProgram()
 			c.count("directed:twoAssets")
@@ -646,6 +655,8 @@ func init() {
 				cfg.Directed = "worldLookalike"
 			case 1:
 				cfg.Directed = "keyCollision"
+			case 16:
+				cfg.Directed = "edgeCapSumSrc"
 			}
 		}, nil)
 	}
@@ -670,6 +681,9 @@ func init() {
 			}
 			if i%20 == 3 {
 				cfg.Directed = "metaCapRewrite"
+			}
+			if i%20 == 9 {
+				cfg.Directed = "edgeCapSumDest"
 			}
 			cfg.FreePrefix = i%5 == 2
 		}, nil)
@@ -778,6 +792,9 @@ func init() {
 			}
 			if i%18 == 7 {
 				cfg.Directed = "saveAllDebt"
+			}
+			if i%18 == 16 {
+				cfg.Directed = "saveDiff"
 			}
 		}, nil)
 	}
